@@ -96,6 +96,8 @@ fn make_fn(name: String, beh: String, log: Log) -> Function<DefaultNumericTypes>
         log.lock().unwrap().push((name.clone(), arg.clone()));
         if beh == "log" {
             Ok(arg.clone())
+        } else if beh == "notfound_other" {
+            Err(EvalexprError::FunctionIdentifierNotFound(format!("inner_{}", name)))
         } else if beh == "fail" {
             Err(EvalexprError::CustomMessage(format!("fail:{}", name)))
         } else if let Some(v) = beh.strip_prefix("const:") {
